@@ -103,6 +103,8 @@ var checks = []Check{
 			Harness{Fn: "ZZC13Outcome", Expect: []string{"exit", "panic", "test1", "test2", "test3", "testbad", "witness:end"}},
 			Harness{Fn: "ZZC13Hsl", Expect: []string{"hsl-ok", "hsl-err", "witness:end"}},
 			Harness{Fn: "ZZC13Len", Quick: p("N", 3), Thorough: p("N", 6), Expect: []string{"witness:end"}},
+		), lexUnit([]string{"lexer/c03.go"},
+			Harness{Fn: "ZZC13IsIdent", Quick: p("NI", 2), Thorough: p("NI", 3), Expect: []string{"witness:end"}},
 		)},
 		Assumptions: []string{
 			"math.Mod/Pow/Log/Sin/Cos/Atan2 are uninterpreted functions (equal arguments give equal results); Abs/Floor/Ceil/Round/Sqrt/Min/Max are FP-theory terms with Go's NaN/±0/±Inf rules",
